@@ -43,6 +43,8 @@ type Record struct {
 	Gen    []int            `json:"gen"`
 	Params map[string]int   `json:"params,omitempty"`
 	Sched  map[string][]int `json:"sched,omitempty"`
+	// FromSeed: regenerate the case from (Seed, Index) instead of replaying streams
+	FromSeed bool `json:"from_seed,omitempty"`
 
 	// filled in on failure
 	Sig      string         `json:"signature,omitempty"`
